@@ -192,6 +192,9 @@ func(_rolling_hash2_run_until_04)
 	mov	z, [t1 + x * 8]
 	xor	z, [t2 + y * 8]
 	xor	hash, z
+	pext	x, hash, mask
+	cmp	x, trigger
+	je	.ret_0
 .ret_1:	add	pos, 1
 .ret_0:	mov	dword [idx], pos.w
 	mov	rax, hash
